@@ -151,6 +151,8 @@ def gen_levels(rng, n, amp):
 def gen_sequence_c04(rng):
     amp = rng.choice([2, 3, 4, 5, 8, 12])
     n = rng.choice([2, 3, 3, 4, 4, 5, 5, 6, 7, 8, 10, 12, 16, 22])
+    if rng.random() < 0.015:
+        n, amp = rng.choice([90, 160]), rng.choice([12, 30])       # a long recording now and then
     lv = gen_levels(rng, n, amp)
     if rng.random() < 0.25:                # positive-only / negative-only sequences
         s = rng.choice([-1, 1])
@@ -364,6 +366,8 @@ def gen_sequence_c05(rng):
     for _ in range(200):
         amp = rng.choice([3, 4, 5, 8, 12, 20])
         n = rng.choice([2, 3, 4, 5, 6, 8, 10, 12, 16, 20, 26])
+        if rng.random() < 0.015:
+            n, amp = rng.choice([80, 140]), rng.choice([20, 40])     # a long recording now and then
         lv = gen_levels(rng, n, amp)
         if rng.random() < 0.3:
             lv = refine(rng, lv, junction=False, density=0.3)
@@ -1064,3 +1068,15 @@ def describe(prop):
                             "K2 uses binning maxima that keep every load, load difference and doubled load off the class edges for every node (the batch picks the class from its first node)",
                             "models/hcm_ref.py is trusted; the law's scalar and Series interfaces are assumed to agree (checked indirectly by K1)"],
             "required_probes": ["probe:M1", "probe:M2", "probe:M3", "probe:memory2_chain", "probe:batch_nodes", "twin:neg", "op:process_chunk", "probe:cut_in_or_after_reversal_dwell"]}
+
+
+_canary_law = []
+
+
+def canary():
+    """A fresh detector and recorder on a fixed sequence with a law object built once at process start."""
+    if not _canary_law:
+        _canary_law.append(Binned(ExtendedNeuber(206e3, 2650.0, 0.187, 3.5), 1073.1, 20))
+    det, rec, _ = run_two_pass(np.array([100.0, -300.0, 200.0, -400.0, 500.0, -100.0]), _canary_law[0])
+    rows = collective_rows(rec)
+    return [[r[k] for k in COLS] for r in rows] + [[float(x) for x in det.strain_values]]
